@@ -32,7 +32,9 @@ META = {
                      "the independent path/extension logic of vlib/c11.py (oracle)"],
     "allowed_axioms": [],
     "rule": "seeded scenarios: 2-8 files under src/ in nested directories (names with spaces, several dots, non-ASCII, "
-            "hidden, upper-case extension, a directory named d.lua), non-Lua files, faulty files (syntax error, missing "
+            "hidden, upper-case extension, a directory named d.lua), non-Lua files and bystanders whose extension only looks "
+            "like a Lua one (init.lua~, chunk.luac, impl.lua_old, x.luax, lua, *.lua.bak, BIG.LUA), single-file projects, an "
+            "existing output directory with a dotted name (dist.v2, build/pkg-1.2.0), faulty files (syntax error, missing "
             "require under a bundle configuration, invalid UTF-8 and unwritable destination on disk), 9 input/output "
             "shapes (directory to new/existing directory, in place, onto itself, sub-directory, file to file / existing "
             "directory / new path without extension / in place), bundle on/off, fail-fast on/off; every scenario is run "
@@ -163,6 +165,18 @@ def oracle(rec, run, disk):
             problems.append(("an item was left unprocessed without fail-fast", {"source": s}))
     if rec["fail_fast"] and n_err > 1:
         problems.append(("fail-fast run continued after the first error", {"errors": n_err}))
+    # order-independent: a run that meets a faulty file reports it, fail-fast or not
+    collected_faulty = sorted(s for (s, o) in items if s in faulty)
+    if collected_faulty and n_err == 0:
+        problems.append(("faulty files were collected but no error is reported",
+                         {"faulty": collected_faulty[:4], "fail_fast": rec["fail_fast"],
+                          "statuses": sorted((s, it["status"]) for (s, o), it in items.items())[:6]}))
+    if not rec["fail_fast"]:
+        unreported = [s for s in collected_faulty if items[[k for k in items if k[0] == s][0]]["status"] != "err"]
+        if unreported:
+            problems.append(("a faulty file is not reported", {"sources": unreported[:4]}))
+    if len(items) == 1 and collected_faulty and n_err != 1:
+        problems.append(("the only file of the run is faulty and is not reported", {"source": collected_faulty[0]}))
     return problems
 
 
